@@ -401,7 +401,8 @@ Definition atts_from (s0 s1 : state) : Prop :=
     power (under the powers of that moment) exceeds the requirement. *)
 Definition effect_witness (s0 : state) (e : entry) : Prop :=
   exists n h a vs rest, In (n, h, a) (atts s0) /\ e_claim e = a_claim a /\ e_epoch e = epoch s0 /\
-    a_votes a = vs ++ rest /\ exceeds (required s0) (power (pw s0) vs) = true.
+    a_votes a = vs ++ rest /\ exceeds (required s0) (power (pw s0) vs) = true /\
+    in_compass s0 (n, h, a) = true.
 
 Lemma tally_facts s0 : Inv s0 ->
   let s1 := fst (tally s0) in
@@ -411,7 +412,7 @@ Proof.
   intros I. unfold tally.
   apply (tally_loop_inv (fun s1 => tally_frame s0 s1 /\ atts_from s0 s1 /\
           (forall e, In e (applied s1) -> In e (applied s0) \/ effect_witness s0 e))).
-  - intros s1 n h a vs Hin (Fr & Af & Ap) (rest & Hv & Hex & _). apply filter_In in Hin as [Hin _].
+  - intros s1 n h a vs Hin (Fr & Af & Ap) (rest & Hv & Hex & _). apply filter_In in Hin as [Hin Hcomp].
     destruct Fr as (Fp & Ft & Fe & Fc & Fv & Fm).
     destruct (inv_key s0 I _ _ _ Hin) as [Kn Kh].
     split; [|split].
@@ -421,7 +422,7 @@ Proof.
       * now apply Af.
     + intros e H. unfold fire in H; simpl in H. apply in_app_iff in H as [H|[H|[]]]; [now apply Ap|].
       right. subst e. exists n, h, a, vs, rest. simpl.
-      unfold required in *. rewrite Ft, Fp in Hex. auto.
+      unfold required in *. rewrite Ft, Fp in Hex. auto 10.
   - split; [|split].
     + unfold tally_frame. auto 10.
     + intros n h a H. exists a. auto.
@@ -497,7 +498,7 @@ Proof.
   - (* Vote *) apply Old. unfold vote in Hin. destruct (vote_ok _ _ _ _); exact Hin.
   - (* Tally *)
     destruct (tally_facts _ I) as (_ & _ & Ap). apply Ap in Hin as [Hin|W]; [now apply Old|].
-    destruct W as (n & h & a & vs & rest & Ha & Ec & _ & Hv & Hex).
+    destruct W as (n & h & a & vs & rest & Ha & Ec & _ & Hv & Hex & _).
     exists ops, [], vs. split; [reflexivity|]. split; [|split].
     + apply (NoDup_app_l vs rest). rewrite <- Hv. eapply inv_nodup; eauto.
     + intros v Hvin.
@@ -508,6 +509,28 @@ Proof.
       destruct (claim_eq_dec c (a_claim a)) as [E|NE]; [now left | right; split; [exact NE | congruence]].
     + now apply exceeds_required.
   - (* Prune *) apply Old. unfold prune in Hin. destruct (_ <=? _); exact Hin.
+Qed.
+
+(** Only claims of the current bridge deployment take effect: at the tally that applied it, the
+    claim named the latest compass id (or no compass id was recorded yet). *)
+Lemma applied_of_current_deployment_run ops e :
+  In e (applied (run ops)) ->
+  exists ops1 ops2, ops = ops1 ++ Tally :: ops2 /\
+    (compass (run ops1) = 0 \/ c_compass (e_claim e) = compass (run ops1)).
+Proof.
+  induction ops as [|o ops IH] using rev_ind; [simpl; tauto|].
+  rewrite run_snoc. pose proof (Inv_run ops) as I. intros Hin.
+  assert (Old : In e (applied (run ops)) -> exists ops1 ops2, ops ++ [o] = ops1 ++ Tally :: ops2 /\
+    (compass (run ops1) = 0 \/ c_compass (e_claim e) = compass (run ops1))).
+  { intros H. destruct (IH H) as (o1 & o2 & E & R). exists o1, (o2 ++ [o]).
+    split; [|exact R]. rewrite E, <- app_assoc. reflexivity. }
+  destruct o; simpl in Hin; try (apply Old; exact Hin).
+  - apply Old. unfold vote in Hin. destruct (vote_ok _ _ _ _); exact Hin.
+  - destruct (tally_facts _ I) as (_ & _ & Ap). apply Ap in Hin as [Hin|W]; [now apply Old|].
+    destruct W as (n & h & a & vs & rest & Ha & Ec & _ & _ & _ & Hc).
+    exists ops, []. split; [reflexivity|]. rewrite Ec.
+    unfold in_compass in Hc. simpl in Hc. apply orb_true_iff in Hc as [Hc|Hc]; apply Z.eqb_eq in Hc; auto.
+  - apply Old. unfold prune in Hin. destruct (_ <=? _); exact Hin.
 Qed.
 
 (** * Non-vacuity: concrete histories *)
